@@ -44,9 +44,16 @@ def classify(v):
 def describe(key):
     for e in entries():
         if e["key"] == key:
-            return e["mechanism"]
+            return e.get("short") or e["mechanism"]
     return key
 
 
 # ---------------------------------------------------------------- predicates
 # (added as findings are recorded; each must be a pure function of oracle + mech)
+
+
+@predicate("C03-empty-gap-adjacent-ranges")
+def _c03_empty_gap(v):
+    m = v["mech"]
+    return v["oracle"] == "map-token" and m.get("step") == "ReplaceAroundStep" and m.get("empty_gap") is True \
+        and m.get("adjacent_ranges") is True
